@@ -79,11 +79,21 @@ def run_one(jp, spec, base):
                 stdin_file.seek(len(hdr))
                 transports.append("stdin:file@%d" % len(hdr))
                 r = subprocess.run(argv, stdin=stdin_file, capture_output=True, timeout=60)
-            elif spec["input_channel"] != "stdin" and "dev-stdin" not in transports and not stdin and (h >> 15) % 5 != 0:
+            elif spec["input_channel"] != "stdin" and "dev-stdin" not in transports and not stdin and (h >> 15) % 6 != 0:
                 # the document comes from a named file: whatever standard input is — undecodable bytes, text that is
                 # not JSON, a directory, closed — is none of jp's business and changes nothing
-                hs = (h >> 15) % 5
-                if hs == 1:
+                hs = (h >> 15) % 6
+                if hs == 5:
+                    # an interactive terminal nobody types into
+                    import pty
+                    transports.append("stdin:ignored-terminal")
+                    master, slave = pty.openpty()
+                    try:
+                        r = subprocess.run(argv, stdin=slave, capture_output=True, timeout=60)
+                    finally:
+                        os.close(master)
+                        os.close(slave)
+                elif hs == 1:
                     transports.append("stdin:ignored-invalid-utf8")
                     r = subprocess.run(argv, input=b"\xff\xfe{\"a\": \xc3", capture_output=True, timeout=60)
                 elif hs == 2:
